@@ -112,3 +112,9 @@ Print Assumptions security_sites_present.
 Theorem hashlib_users_tie : hashlib_users = [certs_file; lit "utils/logging.py"].
 Proof. exact EquivCerts_proofs.hashlib_users_tie. Qed.
 Print Assumptions hashlib_users_tie.
+
+(* security/pyopenssl_tls.py get_peer_certificate_from_connection: `conn.get_peer_certificate()`, None when it raises - the
+   certificate the peer proved possession of, not an entry of the chain it sent along *)
+Theorem conn_peer_certificate_tie : conn_peer_certificate_is_the_leaf = true.
+Proof. exact EquivCerts_proofs.conn_peer_certificate_tie. Qed.
+Print Assumptions conn_peer_certificate_tie.
